@@ -1,6 +1,7 @@
 import CoapVerif.Model.Block
 import CoapVerif.Model.BlockCrcv
 import CoapVerif.Model.BlockRtag
+import CoapVerif.Model.BlockNet
 import CoapVerif.Generated.BlockConst
 /- Line-protocol driver for C09 Layer A (block option codec, size negotiation, slicing, received ranges,
    body reassembly, single-body receiver step).  Output formats mirror harness/block.c. -/
@@ -265,7 +266,13 @@ def srcv3Run (maxBlk : Nat) (b0 b1 : Bytes) (withSize1 : Bool) :
       let chunk := 2 ^ (szx + 4)
       let (lgs', o) := srcvMultiStep Coap.Generated.rblockCnt 0 maxBlk lgs (rtagOf r) num m szx
         ((body.drop (num * chunk)).take chunk) (if withSize1 then some body.length else none)
-      srcv3Run maxBlk b0 b1 withSize1 rest lgs' ((showOut o m ++ s!"/{lgs'.length}") :: acc)
+      -- the Block1 option of the response, as the composed model (Model/BlockNet.lean, `b1Responses`) has it
+      let par : B1Par := { body := body, maxSize := 0, tokLen := 0, optBytes := 0, lastOpt := 0, blk := none, maxBlkC := 0,
+                           rtagLen := 0, maxBlk := maxBlk, room := 0, cap := 0, junk := 0 }
+      let opt := match b1Responses par ⟨num, m, szx, [], none⟩ o with
+        | [(true, some (n, s))] => s!"b{n}.1.{s}"
+        | _ => ""
+      srcv3Run maxBlk b0 b1 withSize1 rest lgs' ((showOut o m ++ opt ++ s!"/{lgs'.length}") :: acc)
     | _ => ("bad-op" :: acc).reverse
 
 def srcv3Line (args : List String) : String :=
